@@ -260,6 +260,11 @@ func catalogue() []catEntry {
 			return true
 		}},
 		{name: "evidence-missing-fault-validators", minHeight: 2, apply: func(b *byzActor, blk *types.Block, rs *cstypes.RoundState) bool {
+			if b.cl.cfg.LongStall > 0 || b.cl.recoverSeen {
+				// the block after a recover block legitimately carries no account of
+				// the previous height's rounds: not invalid by the statement there
+				return false
+			}
 			setEvidence(blk, nil)
 			return true
 		}},
@@ -270,6 +275,11 @@ func catalogue() []catEntry {
 			return true
 		}},
 		{name: "evidence-two-fault-validators", minHeight: 2, apply: func(b *byzActor, blk *types.Block, rs *cstypes.RoundState) bool {
+			if b.cl.cfg.LongStall > 0 || b.cl.recoverSeen {
+				// the block after a recover block legitimately carries no account of
+				// the previous height's rounds: not invalid by the statement there
+				return false
+			}
 			evs := blk.Evidence.Evidence
 			if len(evs) == 0 {
 				return false
@@ -278,6 +288,11 @@ func catalogue() []catEntry {
 			return true
 		}},
 		{name: "evidence-wrong-fault-validators", minHeight: 2, apply: func(b *byzActor, blk *types.Block, rs *cstypes.RoundState) bool {
+			if b.cl.cfg.LongStall > 0 || b.cl.recoverSeen {
+				// the block after a recover block legitimately carries no account of
+				// the previous height's rounds: not invalid by the statement there
+				return false
+			}
 			for _, ev := range blk.Evidence.Evidence {
 				if f, ok := ev.(*types.FaultValidatorsEvidence); ok {
 					nf := *f
